@@ -120,13 +120,22 @@ fn batches(tier_quick: bool, seed: u64) -> Vec<Batch> {
 /// Runs the operator once on a solution made of `xs` (one coordinate per dimension, all with the same
 /// domain) and then a second time on its own output; returns violations.
 fn run_batch(b: &Batch, only: Option<usize>) -> (Vec<Value>, u64, Vec<u64>) {
+    // one component object per operator for the whole worker process: it is used on problem after problem with
+    // different domains and dimensions, and must repair against the problem at hand every time
+    static COMPONENTS: std::sync::OnceLock<std::sync::Mutex<std::collections::HashMap<&'static str, Box<dyn Component<Real>>>>> = std::sync::OnceLock::new();
+    let comp = COMPONENTS.get_or_init(Default::default).lock().unwrap().remove(b.op).unwrap_or_else(|| op_component(b.op));
+    let out = run_batch_with(comp.as_ref(), b, only);
+    COMPONENTS.get_or_init(Default::default).lock().unwrap().insert(b.op, comp);
+    out
+}
+
+fn run_batch_with(comp: &dyn Component<Real>, b: &Batch, only: Option<usize>) -> (Vec<Value>, u64, Vec<u64>) {
     let xs: Vec<f64> = match only {
         Some(j) => vec![b.xs[j]],
         None => b.xs.clone(),
     };
     let (a, hi) = b.domain;
     let problem = Real::with_domains(vec![b.domain; xs.len()], RealFn::Sphere);
-    let comp = op_component(b.op);
     let mut st = State::<Real>::new();
     let mut pops = Populations::<Real>::new();
     // by batch: the solution alone on the stack / on top of another population holding a copy of it (which the
